@@ -145,7 +145,7 @@ Proof.
   intros Hb Hp Hd Hc. unfold Acct, budget_ok, plc, ncalls in *. rewrite Hp, Hd, Hc. split; [exact Hb | split; lia].
 Qed.
 
-Definition A_pw f := forall p sc o sc', pw f p sc = Done (o, sc') -> budget_ok sc -> sz_pattern p <= C ->
+Definition A_pw f := forall k p sc o sc', pw f k p sc = Done (o, sc') -> budget_ok sc -> sz_pattern p <= C ->
   Acct sc sc' 0 /\ Toks sc sc' o C.
 Definition A_ew f := forall e sc o sc', ew f e sc = Done (o, sc') -> budget_ok sc -> sz_expr e <= C ->
   Acct sc sc' (lf_expr e) /\ Toks sc sc' o (3 + C).
@@ -153,9 +153,9 @@ Definition A_iw f := forall i sc o sc', iw f i sc = Done (o, sc') -> budget_ok s
   Acct sc sc' (lf_inline i) /\ Toks sc sc' o (3 + C).
 Definition A_ir f := forall i sc v sc', ir f i sc = Done (v, sc') -> budget_ok sc -> sz_inline i <= C ->
   Acct sc sc' (lf_inline i).
-Definition A_mt f := forall p e sc o sc', mt f p e sc = Done (o, sc') -> budget_ok sc -> sz_expr e <= C ->
+Definition A_mt f := forall k p e sc o sc', mt f k p e sc = Done (o, sc') -> budget_ok sc -> sz_expr e <= C ->
   Acct sc sc' (lf_expr e) /\ Toks sc sc' o (6 + C).
-Definition A_tr f := forall p exp sc o sc', tr f p exp sc = Done (o, sc') -> budget_ok sc -> In p (bundle_patterns b) ->
+Definition A_tr f := forall k p exp sc o sc', tr f k p exp sc = Done (o, sc') -> budget_ok sc -> In p (bundle_patterns b) ->
   Acct sc sc' 0 /\ Toks sc sc' o (3 + C).
 Definition A_ga f := forall oa sc pos named sc', ga f oa sc = Done (pos, named, sc') -> budget_ok sc -> sz_oargs oa <= C ->
   Acct sc sc' (lf_oargs oa).
@@ -211,9 +211,9 @@ Lemma plc_succ sc n : sc_placeables sc = (n + 1)%N -> N.to_nat (n + 1) = S (N.to
 Proof. intros _. lia. Qed.
 
 (* ---------- loops ---------- *)
-Lemma pattern_loop_acct f p len :
+Lemma pattern_loop_acct f k p len :
   A_mt f -> forall els sc o sc',
-  pattern_loop overflow_checks transform b (mt f p) len els sc = Done (o, sc') ->
+  pattern_loop overflow_checks transform b (mt f k p) len els sc = Done (o, sc') ->
   budget_ok sc -> list_max (map sz_element els) <= C ->
   Acct sc sc' 0 /\ length o + plc sc * D <= length els + plc sc' * D.
 Proof.
@@ -244,7 +244,7 @@ Proof.
         apply obind_done in H as ([o1 s1] & E1 & H).
         apply obind_done in H as ([o2 s2] & E2 & H). injection H as <- <-.
         cbn [sz_element] in Hsz.
-        destruct (Hmt _ _ _ _ _ E1 Hb1) as [(B1 & P1 & A1) T1]; [lia|].
+        destruct (Hmt _ _ _ _ _ _ E1 Hb1) as [(B1 & P1 & A1) T1]; [lia|].
         destruct (IH _ _ _ E2 B1) as [(B2 & P2 & A2) T2]; [lia|].
         unfold Toks in T1. rewrite Hp1 in *. rewrite Hc1 in *.
         split.
@@ -289,16 +289,16 @@ Qed.
 (* ---------- steps ---------- *)
 Lemma acct_pw f : A_mt f -> A_pw (S f).
 Proof.
-  intros Hmt p sc o sc'. rewrite pw_S. intros H Hb Hsz. destruct p as [els]. cbn [pattern_elements sz_pattern] in *.
-  destruct (pattern_loop_acct f (Pattern els) (length els) Hmt _ _ _ _ H Hb) as [A1 T1]; [unfold sz_element; lia|].
+  intros Hmt k p sc o sc'. rewrite pw_S. intros H Hb Hsz. destruct p as [els]. cbn [pattern_elements sz_pattern] in *.
+  destruct (pattern_loop_acct f k (Pattern els) (length els) Hmt _ _ _ _ H Hb) as [A1 T1]; [unfold sz_element; lia|].
   split; [exact A1 | unfold Toks; lia].
 Qed.
 
 Lemma acct_mt f : A_ew f -> A_mt (S f).
 Proof.
-  intros Hew p e sc o sc'. rewrite mt_S. cbv zeta. intros H Hb Hsz.
+  intros Hew k p e sc o sc'. rewrite mt_S. cbv zeta. intros H Hb Hsz.
   apply obind_done in H as ([o1 s1] & E1 & H).
-  set (sc0 := match sc_travelled sc with [] => set_travelled sc [p] | _ :: _ => sc end) in *.
+  set (sc0 := match sc_travelled sc with [] => set_travelled sc [k] | _ :: _ => sc end) in *.
   assert (Hb0 : budget_ok sc0) by (subst sc0; destruct (sc_travelled sc); exact Hb).
   assert (H0 : plc sc0 = plc sc /\ ncalls sc0 = ncalls sc) by (subst sc0; destruct (sc_travelled sc); split; reflexivity).
   destruct H0 as [Hp0 Hc0].
@@ -310,14 +310,14 @@ Qed.
 
 Lemma acct_tr f : A_pw f -> A_tr (S f).
 Proof.
-  intros Hpw p exp sc o sc'. rewrite tr_S. intros H Hb Hin.
-  destruct (pattern_mem p (sc_travelled sc)).
+  intros Hpw k p exp sc o sc'. rewrite tr_S. intros H Hb Hin.
+  destruct (key_mem k (sc_travelled sc)).
   - injection H as <- <-. split; [apply Acct_same; auto | apply Toks_small; cbn; [lia | reflexivity]].
   - cbv zeta in H. apply obind_done in H as ([o1 s1] & E1 & H). injection H as <- <-.
-    destruct (Hpw _ _ _ _ E1 Hb (HC p Hin)) as [(B1 & P1 & A1) T1].
+    destruct (Hpw _ _ _ _ _ E1 Hb (HC p Hin)) as [(B1 & P1 & A1) T1].
     split; [split; [exact B1 | split; [exact P1 | exact A1]]|].
     unfold Toks in *. change (plc (set_travelled s1 (tl (sc_travelled s1)))) with (plc s1).
-    change (plc (set_travelled sc (p :: sc_travelled sc))) with (plc sc) in T1. lia.
+    change (plc (set_travelled sc (Some k :: sc_travelled sc))) with (plc sc) in T1. lia.
 Qed.
 
 Lemma acct_ga f : A_ir f -> A_ga (S f).
@@ -345,11 +345,11 @@ Proof.
       eapply find_variant_acct; [exact E2 | exact (proj1 A1) | exact E2 | exact (proj1 A1)]. }
   destruct Hfind as [A2 Hin].
   pose proof (Acct_trans _ _ _ _ _ A1 A2) as A12. rewrite Nat.add_0_r in A12.
-  assert (Hvar : forall p k d, In (Variant k p d) variants -> pw f p s2 = Done (o, sc') ->
+  assert (Hvar : forall p k d, In (Variant k p d) variants -> pw f None p s2 = Done (o, sc') ->
                                Acct sc sc' (lf_inline selector) /\ Toks sc sc' o (3 + C)).
   { intros p k d Hv Hrun.
     pose proof (sz_variant_in _ _ _ _ Hv) as Hs. fold sz_variant in Hsz.
-    destruct (Hpw _ _ _ _ Hrun (proj1 A12) ltac:(lia)) as [A3 T3].
+    destruct (Hpw _ _ _ _ _ Hrun (proj1 A12) ltac:(lia)) as [A3 T3].
     pose proof (Acct_trans _ _ _ _ _ A12 A3) as A. rewrite Nat.add_0_r in A.
     split; [exact A|]. destruct A12 as (_ & P12 & _). unfold Toks in *.
     assert (plc sc * D <= plc s2 * D) by (apply Nat.mul_le_mono_r; exact P12). lia. }
@@ -483,9 +483,9 @@ Proof.
 Qed.
 
 (* ---------- the entry point ---------- *)
-Theorem write_pattern_bounds fuel p c o sc' :
+Theorem write_pattern_bounds fuel top p c o sc' :
   write_pattern overflow_checks call_function transform formatter rules custom_as_string
-    unescape_write unescape_to_string f64_from_str b args fuel p c = Done (o, sc') ->
+    unescape_write unescape_to_string f64_from_str b args fuel top p c = Done (o, sc') ->
   sz_pattern p <= C ->
   length (sc_calls sc') <= (N.to_nat MAX_PLACEABLES + 1) * C /\
   length o <= C + (N.to_nat MAX_PLACEABLES + 1) * (C + 8).
@@ -493,7 +493,7 @@ Proof.
   unfold write_pattern. intros H Hsz.
   destruct (acct_all fuel) as (Hpw & _).
   assert (Hb : budget_ok (scope_new c)) by (left; cbn; apply N.le_0_l).
-  destruct (Hpw _ _ _ _ H Hb Hsz) as [(B1 & P1 & A1) T1].
+  destruct (Hpw _ _ _ _ _ H Hb Hsz) as [(B1 & P1 & A1) T1].
   assert (Hpl : plc sc' <= N.to_nat MAX_PLACEABLES + 1).
   { unfold plc. destruct B1 as [Hle|[He _]]; lia. }
   unfold Toks, ncalls, plc in *. cbn [scope_new sc_placeables sc_calls length] in *.
@@ -503,20 +503,20 @@ Proof.
   unfold D in *. split; lia.
 Qed.
 
-Theorem format_pattern_bounds fuel p c text sc' :
+Theorem format_pattern_bounds fuel top p c text sc' :
   format_pattern overflow_checks call_function transform formatter rules custom_as_string
-    unescape_write unescape_to_string f64_from_str b args fuel p c = Done (text, sc') ->
+    unescape_write unescape_to_string f64_from_str b args fuel top p c = Done (text, sc') ->
   sz_pattern p <= C ->
   length (sc_calls sc') <= (N.to_nat MAX_PLACEABLES + 1) * C.
 Proof.
   unfold format_pattern. rewrite pr_S. intros H Hsz.
   assert (Hgen : forall v sc0,
              (let* (o, sc1) := pattern_write overflow_checks call_function transform formatter rules custom_as_string
-                                 unescape_write unescape_to_string f64_from_str b args fuel p (scope_new c) in
+                                 unescape_write unescape_to_string f64_from_str b args fuel top p (scope_new c) in
               Done (VString (flatten o), sc1)) = Done (v, sc0) ->
              length (sc_calls sc0) <= (N.to_nat MAX_PLACEABLES + 1) * C).
   { intros v sc0 E. apply obind_done in E as ([o s1] & E1 & E). injection E as <- <-.
-    eapply (write_pattern_bounds fuel p c o s1); [exact E1 | exact Hsz]. }
+    eapply (write_pattern_bounds fuel top p c o s1); [exact E1 | exact Hsz]. }
   apply obind_done in H as ([v s0] & E & H). injection H as <- <-.
   destruct p as [els]. cbn [pattern_elements] in E.
   destruct els as [|[v'|e] [|x r]]; try (eapply Hgen; exact E).
